@@ -41,6 +41,9 @@ func NewGenConfig(r *rng.R, callbacks bool) GenConfig {
 	c.CloseNil = r.Chance(1, 6)
 	if callbacks {
 		c.Callbacks = 1 + r.Intn(3)
+		if r.Chance(1, 2) {
+			c.Kinds = append(c.Kinds, "ident") // the same Go function externalises to the same JavaScript function
+		}
 		// An uncaught panic of a goroutine that happens to be run from inside a callback's JavaScript stack is
 		// delivered to that JavaScript caller; what the caller does with it is environment behaviour, outside
 		// the Go/GopherJS common subset. Not generated together with callbacks.
